@@ -531,6 +531,93 @@ Definition parse_ip4 (s : text) : option bytes :=
   | _ => None
   end.
 
+Definition hexval (c : N) : option N :=
+  if is_digit c then Some (c - 48)
+  else if (97 <=? c) && (c <=? 102) then Some (c - 87)
+  else if (65 <=? c) && (c <=? 70) then Some (c - 55)
+  else None.
+
+(* Ipv6Addr (std): Display writes "::ffff:a.b.c.d" for an IPv4-mapped address; otherwise the
+   groups in lower-case hexadecimal without leading zeros, the first longest run of two or
+   more zero groups replaced by "::".  The address is the list of its eight 16-bit groups. *)
+Definition show_hex16 (n : N) : text :=
+  let d := [n / 4096; (n / 256) mod 16; (n / 16) mod 16; n mod 16] in
+  let fix drop (l : list N) := match l with 0 :: (_ :: _) as r => drop r | _ => l end in
+  map hexdig (drop d).
+(* (start, len) of the first longest run of zero groups *)
+Fixpoint zero_run (l : list bool) (i : N) (cur best : N * N) : N * N :=
+  match l with
+  | [] => best
+  | z :: r =>
+      if z then
+        let cur' := (if snd cur =? 0 then i else fst cur, snd cur + 1) in
+        zero_run r (i + 1) cur' (if snd best <? snd cur' then cur' else best)
+      else zero_run r (i + 1) (0, 0) best
+  end.
+Definition join_colon (ws : list text) : text :=
+  match ws with [] => [] | w :: r => w ++ flat_map (fun x => 58 :: x) r end.
+Definition show_ip6 (g : list N) : text :=
+  match g with
+  | [0; 0; 0; 0; 0; 65535; g6; g7] =>
+      [58; 58; 102; 102; 102; 102; 58] ++ show_ip4 [g6 / 256; g6 mod 256; g7 / 256; g7 mod 256]
+  | _ =>
+      let '(st, ln) := zero_run (map (N.eqb 0) g) 0 (0, 0) (0, 0) in
+      if 1 <? ln then
+        join_colon (map show_hex16 (firstn (N.to_nat st) g)) ++ [58; 58] ++
+        join_colon (map show_hex16 (skipn (N.to_nat (st + ln)) g))
+      else join_colon (map show_hex16 g)
+  end.
+
+(* reading (the grammar the writer produces, and its variants with upper case and leading
+   zeros): groups of one to four hex digits separated by ':', at most one "::", optionally
+   an IPv4 address in place of the last two groups *)
+Fixpoint split_on (sep : N) (cur : text) (s : text) : list text :=
+  match s with
+  | [] => [rev cur]
+  | c :: r => if c =? sep then rev cur :: split_on sep [] r else split_on sep (c :: cur) r
+  end.
+Definition parse_hex16 (w : text) : option N :=
+  match w with
+  | [] => None
+  | _ => if Nat.leb (length w) 4
+         then fold_left (fun a c => match a, hexval c with Some x, Some d => Some (x * 16 + d) | _, _ => None end) w (Some 0)
+         else None
+  end.
+Fixpoint parse_groups (ws : list text) : option (list N) :=
+  match ws with
+  | [] => Some []
+  | [w] => if mem 46 w
+           then match parse_ip4 w with Some [a; b; c; d] => Some [a * 256 + b; c * 256 + d] | _ => None end
+           else option_map (fun x => [x]) (parse_hex16 w)
+  | w :: r => match parse_hex16 w, parse_groups r with Some x, Some xs => Some (x :: xs) | _, _ => None end
+  end.
+(* the segments between colons; an empty segment marks "::" (two of them at either end) *)
+Definition parse_ip6 (s : text) : option (list N) :=
+  let segs := split_on 58 [] s in
+  let fix find_gap (pre : list text) (l : list text) : option (list text * list text) :=
+      match l with
+      | [] => None
+      | [] :: r => Some (rev pre, r)
+      | w :: r => find_gap (w :: pre) r
+      end in
+  match find_gap [] segs with
+  | None => match parse_groups segs with Some g => if Nat.eqb (length g) 8 then Some g else None | None => None end
+  | Some (pre, post) =>
+      (* "::" at the start gives ["";"";...], at the end [...;"";""], alone ["";"";""] *)
+      let pre' := pre in
+      let post' := match pre, post with
+                   | [], [] :: r => r            (* leading "::" *)
+                   | _, _ => post end in
+      let post'' := match post' with [[]] => [] | _ => post' end in   (* trailing "::" *)
+      if existsb (fun w => match w with [] => true | _ => false end) (pre' ++ post'') then None else
+      match parse_groups pre', parse_groups post'' with
+      | Some a, Some b =>
+          if Nat.leb (length a + length b) 7
+          then Some (a ++ repeat 0 (8 - length a - length b) ++ b) else None
+      | _, _ => None
+      end
+  end.
+
 Inductive fkind :=
 | FUint (max : N)      (* u8 / u16 / u32 in decimal *)
 | FName                (* domain name, fmt_with_dot / scan_name *)
@@ -542,6 +629,7 @@ Inductive fkind :=
 | FSalt                (* NSEC3 salt: a block of its own holding "-" or a Base16 word *)
 | FTimestamp           (* RRSIG signature time: decimal u32, or YYYYMMDDHHmmSS (Timestamp::scan) *)
 | FIp4                 (* IPv4 address: Ipv4Addr Display / scan_octets + Ipv4Addr::from_str *)
+| FDot                 (* the constant "." (IPSECKEY without a gateway) *)
 | FQuoted              (* quoted octets without a length limit (DisplayQuoted::from_slice / scan_octets: CAA value) *)
 | FRest.               (* rest of the entry: the word texts of all remaining tokens, concatenated
                           (convert_entry: Base16/Base64 text that may be split over tokens or absent) *)
@@ -557,7 +645,8 @@ Inductive fval :=
 | VTypes (l : list N)
 | VSalt (w : text)      (* the Base16 text of the salt, empty for no salt *)
 | VQuoted (b : bytes)
-| VIp4 (a : bytes).     (* the four octets *)
+| VIp4 (a : bytes)      (* the four octets *)
+| VDot.
 
 Definition show_field (v : fval) : list op :=
   match v with
@@ -572,14 +661,15 @@ Definition show_field (v : fval) : list op :=
   | VSalt w => [OBegin; OTok (match w with [] => [45] | _ => w end)]   (* the block is closed after the comment *)
   | VQuoted b => [OTok (show_cstr_quoted b)]
   | VIp4 a => [OTok (show_ip4 a)]
+  | VDot => [OTok [ch_dot]]
   end.
 
 (* a field with the comment the writer attaches to it *)
-Definition field_ops (fc : fval * option text) : list op :=
-  show_field (fst fc) ++ match snd fc with Some c => [OComment c] | None => [] end
+Definition field_ops (fc : fval * list text) : list op :=
+  show_field (fst fc) ++ map OComment (snd fc)
   ++ match fst fc with VSalt _ => [OEnd] | _ => [] end.
 
-Definition data_ops (block : bool) (fs : list (fval * option text)) : list op :=
+Definition data_ops (block : bool) (fs : list (fval * list text)) : list op :=
   if block then OBegin :: flat_map field_ops fs ++ [OEnd] else flat_map field_ops fs.
 
 Fixpoint word_text (s : list sym) : outcome text :=
@@ -644,6 +734,8 @@ Definition read_field (k : fkind) (ts : list tok) : outcome (fval * list tok) :=
           | FSalt => do w <- word_text (t_syms t);
                      Ok (VSalt (match w with [45] => [] | _ => w end), r)
           | FQuoted => do b <- read_octets t; Ok (VQuoted b, r)
+          | FDot => do w <- read_ascii t;
+                    match w with [46] => Ok (VDot, r) | _ => Err E_symbol end
           | FIp4 => do b <- read_octets t;
                     match parse_ip4 b with Some a => Ok (VIp4 a, r) | None => Err E_symbol end
           | FCharstrs | FRest | FTypes => Err E_tokens
@@ -659,7 +751,7 @@ Fixpoint read_fields (ks : list fkind) (ts : list tok) : outcome (list fval) :=
 
 Record record := mk_record {
   r_owner : list bytes; r_ttl : N; r_class : N; r_type : N;
-  r_block : bool; r_fields : list (fval * option text) }.
+  r_block : bool; r_fields : list (fval * list text) }.
 
 (* Record's ZonefileFmt *)
 Definition record_ops (r : record) : list op :=
@@ -711,6 +803,7 @@ Definition compat (w r : N) : bool :=
   | 12, 15 => true         (* Base32hex word in mid-record (NSEC3 next owner hash) *)
   | 14, 8 => true          (* quoted octets, read by scan_octets (CAA value) *)
   | 15, 16 => true         (* IPv4 address *)
+  | 17, 18 => true         (* the constant "." *)
   | 8, 5 => true           (* word read by scan_charstr (CAA tag: letters and digits only) *)
   | _, _ => false
   end.
@@ -728,6 +821,7 @@ Definition fkind_of (w r : N) : option fkind :=
   | 8 => if w =? 14 then Some FQuoted else Some FWord
   | 14 => Some FRtype
   | 16 => Some FIp4
+  | 18 => Some FDot
   | 11 => Some FTypes
   | 12 => Some FSalt
   | 15 => Some FWord
@@ -767,7 +861,7 @@ Definition val_matches (k : fkind) (v : fval) : bool :=
   match k, v with
   | FUint _, VUint _ | FTimestamp, VUint _ | FName, VName _ | FCharstr, VCharstr _ | FWord, VWord _
   | FCharstrs, VCharstrs _ | FRest, VRest _ | FRtype, VRtype _ | FTypes, VTypes _ | FSalt, VSalt _
-  | FQuoted, VQuoted _ | FIp4, VIp4 _ => true
+  | FQuoted, VQuoted _ | FIp4, VIp4 _ | FDot, VDot => true
   | _, _ => false
   end.
 
@@ -779,22 +873,45 @@ Fixpoint vals_match (ks : list fkind) (vs : list fval) : bool :=
   end.
 
 (* the comment of a field: static text, or (dynamic) a text supplied by the caller *)
-Fixpoint with_comments (ws : list (N * (N * list N))) (vs : list fval) : list (fval * option text) :=
+(* comment flag: 0 none, 1 static text, 2 dynamic (its text is a parameter; [] here),
+   3 a dynamic comment followed by a static one (IPSECKEY) *)
+Fixpoint with_comments (ws : list (N * (N * list N))) (vs : list fval) : list (fval * list text) :=
   match ws, vs with
   | w :: wr, v :: vr =>
-      (v, match fst (snd w) with 0 => None | _ => Some (snd (snd w)) end) :: with_comments wr vr
+      (v, match fst (snd w) with 0 => [] | 1 => [snd (snd w)] | 2 => [[]] | _ => [[]; snd (snd w)] end) :: with_comments wr vr
   | _, _ => []
   end.
 
 Definition typed_record (e : schema) (owner : list bytes) (ttl cl : N) (vs : list fval) : record :=
   mk_record owner ttl cl (s_code e) (s_block e) (with_comments (s_wfields e) vs).
 
+(* IPSECKEY: the kind of the gateway field (writer kind 16 / reader kind 17 in ipseckey_schema)
+   is decided by the gateway type, the second field; ipseckey_gateways lists the arms of
+   IpseckeyGateway's ZonefileFmt and scan *)
+Definition resolve_gateway (e : schema) (g : N * (N * N)) : schema :=
+  (s_code e, (s_block e,
+    (map (fun w => if fst w =? 16 then (fst (snd g), snd w) else w) (s_wfields e),
+     map (fun r => if r =? 17 then snd (snd g) else r) (s_rkinds e)))).
+Fixpoint find_gateway (l : list (N * (N * N))) (t : N) : option (N * (N * N)) :=
+  match l with [] => None | g :: r => if fst g =? t then Some g else find_gateway r t end.
+Definition ipseckey_schema_for (vs : list fval) : option schema :=
+  match vs with
+  | _ :: VUint t :: _ => option_map (resolve_gateway ipseckey_schema) (find_gateway ipseckey_gateways t)
+  | _ => None
+  end.
+(* Ipseckey::scan: the key may only be missing when the algorithm is 0 *)
+Definition ipseckey_key_rule (vs : list fval) : bool :=
+  match vs with
+  | [_; _; VUint alg; _; VRest key] => negb (match key with [] => true | _ => false end) || (alg =? 0)
+  | _ => true
+  end.
+
 (* correspondence entry point: the record of type [code] with the given field values, written
    in kind [k] with the schema extracted from the type's ZonefileFmt impl, and read back with the
    schema extracted from its scan function *)
 Definition c06_rec (k code : N) (owner : list bytes) (ttl cl : N) (vs : list fval)
   : outcome (text * outcome (list bytes * N * N * N * list fval)) :=
-  match find_schema type_schemas code with
+  match (if code =? s_code ipseckey_schema then ipseckey_schema_for vs else find_schema type_schemas code) with
   | None => Err E_entry
   | Some e =>
       match schema_kinds e with
@@ -803,7 +920,7 @@ Definition c06_rec (k code : N) (owner : list bytes) (ttl cl : N) (vs : list fva
           if negb (vals_match ks vs) then Err E_tokens else
           do t <- show_record (if k =? 0 then KSimple else if k =? 1 then KTabbed else KMulti)
                               (typed_record e owner ttl cl vs);
-          Ok (t, read_record ks t)
+          Ok (t, if (code =? s_code ipseckey_schema) && negb (ipseckey_key_rule vs) then Err E_entry else read_record ks t)
       end
   end.
 
@@ -812,12 +929,6 @@ Definition c06_rec (k code : N) (owner : list bytes) (ttl cl : N) (vs : list fva
 (* UnknownRecordData's ZonefileFmt: ONE write_token call whose text contains blanks *)
 Definition generic_text (data : bytes) : text :=
   [92; 35; 32] ++ show_dec (len data) ++ flat_map (fun b => 32 :: show_hex2 b) data.
-
-Definition hexval (c : N) : option N :=
-  if is_digit c then Some (c - 48)
-  else if (97 <=? c) && (c <=? 102) then Some (c - 87)
-  else if (65 <=? c) && (c <=? 70) then Some (c - 55)
-  else None.
 
 (* base16::SymbolConverter over the symbols of all remaining tokens *)
 Fixpoint hex_syms (s : list sym) (pending : option N) : outcome bytes :=
@@ -941,6 +1052,18 @@ Definition c06_ts (tok : text) : outcome N :=
                      [32; 48; 32; 48; 32; 46; 32; 65; 65; 61; 61; ch_lf]);
   if negb (Nat.eqb (length ts) 13) then Err E_tokens else
   match nth_error ts 8 with Some t => read_timestamp t | None => Err E_tokens end.
+
+(* IPv6 text: Display of the address, and ". 0 IN AAAA <text>\n" read back *)
+Definition c06_ip6show (g : list N) : text := show_ip6 g.
+Definition c06_ip6read (tok : text) : outcome (list N) :=
+  do ts <- tokenize ([46; 32; 48; 32; 73; 78; 32; 65; 65; 65; 65; 32] ++ tok ++ [ch_lf]);
+  match ts with
+  | [_; _; _; _; t5] =>
+      if is_marker t5 then Err E_generic else
+      do b <- read_octets t5;
+      match parse_ip6 b with Some g => Ok g | None => Err E_symbol end
+  | _ => Err E_tokens
+  end.
 
 (* ". 0 IN NS <token>\n": scan_name / convert_label with the fast path on the raw text *)
 Definition c06_nstext (tok : text) : outcome (list bytes) :=
